@@ -452,6 +452,25 @@ func pureStable(v ssa.Value, d int) bool {
 			if x.Parent() == nil {
 				return false
 			}
+			// single-assignment cell (captured local assigned once): stable
+			var cell *ssa.Alloc
+			switch a := x.X.(type) {
+			case *ssa.Alloc:
+				cell = a
+			case *ssa.FreeVar:
+				cell, _ = FreeVarBinding(a).(*ssa.Alloc)
+			}
+			if cell != nil {
+				n := 0
+				for _, r := range Refs(cell) {
+					if st, ok := r.(*ssa.Store); ok && st.Addr == ssa.Value(cell) {
+						n++
+					}
+				}
+				if n == 1 {
+					return true
+				}
+			}
 			return !StoresTo(x.Parent(), PathOf(x.X))
 		}
 		if x.Op == token.ARROW {
